@@ -1,6 +1,8 @@
 """C03 - Python filter Jacobians are the true partial derivatives, laid out by name."""
 from __future__ import annotations
 
+import numpy as np
+
 from .. import build, gen, monitors, oracle as O
 from . import common as K
 
@@ -27,7 +29,54 @@ N_POINTS = {"quick": 5, "thorough": 10}
 
 
 def plan(tier, seed):
-    return [{"uid": f"p{i}", "i": i} for i in range(N_PROG[tier])]
+    return [{"uid": "absprobe", "kind": "absprobe", "i": 0}] + [{"uid": f"p{i}", "i": i} for i in range(N_PROG[tier])]
+
+
+def run_abs_probe(unit, ctx):
+    """Known finding jacobian:abs-of-unassumed-symbol, probed on purpose (vf/probes.py): the witness is
+    compiled with CSE on and off; the known outcomes are reported under the finding's key, a correct
+    result is fine, anything else is an ordinary violation."""
+    from .. import probes
+
+    R = K.Result()
+    defn = probes.abs_witness_defn()
+    orc = O.Oracle(defn)
+    for cse in (True, False):
+        try:
+            ekf = build.Built(defn).py_ekf(common_subexpression_elimination=cse, innovation_filtering=None)
+        except Exception as e:  # noqa: BLE001
+            if not cse and "Derivative" in (K.exc_text(e) + K.tb_text(e)):
+                R.stats.inc("abs_probe_known_compile_error_cse_off")
+                R.add([K.V(probes.KEY_ABS, f"CSE off: compile_ekf raised {type(e).__name__} on the unevaluated Derivative", defn=defn)])
+            else:
+                R.add([K.V(K.exc_key("compile_ekf", e), f"compile_ekf raised on the Abs witness (cse={cse}): {K.exc_text(e)}",
+                           defn=defn, traceback=K.tb_text(e))])
+            continue
+        for pt in probes.abs_witness_points():
+            env = orc.env(pt)
+            st = ekf.State(v=pt["v"], x=pt["x"])
+            G = np.asarray(ekf.process_jacobian(pt["dt"], st, ekf.Control()), dtype=float)
+            H = np.asarray(ekf.sensor_jacobian("pitot", st), dtype=float)
+            names = sorted(defn["state"])
+            rd = sorted(defn["sensors"]["pitot"])
+            refG, refH = orc.process_jacobian(env), orc.sensor_jacobian("pitot", env)
+            R.evals += 1
+            for (M, ref, rows, what) in ((G, refG, names, "process_jacobian"), (H, refH, rd, "sensor_jacobian")):
+                for i, r in enumerate(rows):
+                    for j, c in enumerate(names):
+                        want = float(ref[(r, c)][0])
+                        got = float(M[i, j])
+                        if abs(got - want) <= 1e-9 * max(1.0, abs(want)):
+                            R.stats.inc("abs_probe_entries_right")
+                            continue
+                        # the known wrong value: the d|v|/dv term is missing altogether
+                        dropped = {("v", "v"): 1.0 - pt["dt"] * 0.3 * abs(pt["v"]), ("speed", "v"): 0.0}.get((r, c))
+                        if cse and dropped is not None and abs(got - dropped) <= 1e-9:
+                            R.stats.inc("abs_probe_known_wrong_entries")
+                            R.add([K.V(probes.KEY_ABS, f"CSE on: {what}[{r},{c}] = {got!r}, true derivative {want!r} (the d|v|/dv term is missing)", defn=defn, point=pt)])
+                        else:
+                            R.add([K.V(what, f"Abs witness (cse={cse}): {what}[{r},{c}] = {got!r}, expected {want!r}", defn=defn, point=pt)])
+    return R.out()
 
 
 def unit_timeout(tier):
@@ -65,6 +114,8 @@ def rectangular(defn):
 
 
 def run_unit(unit, ctx):
+    if unit.get("kind") == "absprobe":
+        return run_abs_probe(unit, ctx)
     R = K.Result()
     rng = K.unit_rng(ID, ctx["seed"], unit)
     defn = gen_defn(rng, ctx["tier"], unit["i"])
